@@ -71,6 +71,7 @@ var creation = common.FromHex("6001600055" + "6002600155" + "600d6016600039" + "
 // ---- the block tree -------------------------------------------------------------------------------
 
 type node struct {
+	extra    bool // not part of the permuted tree (imported in one fixed history, corrupted like the others)
 	name     string
 	parent   int // -1 genesis
 	block    *types.Block
@@ -174,6 +175,15 @@ func build(cfgName string) *world {
 		g.AddTx(call(env, g, 0, cStore, 0, 100000, word(3)))
 	})
 	add("A4", a3, func(g *core.BlockGen) { g.SetCoinbase(miner2); g.AddTx(call(env, g, 0, cSuicide, 0, 100000, nil)) })
+	// a block whose transaction / receipt lists cross the 0x7f/0x80 index-encoding boundary
+	l3 := add("L3", m2, func(g *core.BlockGen) {
+		g.SetCoinbase(miner2)
+		g.SetExtra([]byte("l"))
+		for k := 0; k < 130; k++ {
+			g.AddTx(env.Transfer0(g, 2, A[0], int64(1+k)))
+		}
+	})
+	w.nodes[l3].extra = true
 	// side branch B from M4: B5, B6 with earlier timestamps
 	b5 := add("B5", m4, func(g *core.BlockGen) {
 		g.SetCoinbase(miner1)
@@ -286,6 +296,9 @@ func (w *world) checkImported(bc *core.BlockChain, n *node, pruningOff, justImpo
 	if len(rs) > 0 && (gas != b.GasUsed() || rs[len(rs)-1].CumulativeGasUsed != b.GasUsed()) {
 		f = append(f, fmt.Sprintf("%s: receipts sum to %d gas, header says %d", n.name, gas, b.GasUsed()))
 	}
+	if specTxRoot(b) != b.TxHash() {
+		f = append(f, n.name+": transaction root recomputed from the body differs from the header")
+	}
 	if specReceiptRoot(rs) != b.ReceiptHash() {
 		f = append(f, n.name+": receipt root recomputed from the stored receipts differs from the header")
 	}
@@ -383,17 +396,23 @@ func (w *world) nameOf(h common.Hash) string {
 // orders: every linear extension of the tree order, every stride-th kept.
 func (w *world) orders() [][]int {
 	n := len(w.nodes)
+	nExtra := 0
+	for _, x := range w.nodes {
+		if x.extra {
+			nExtra++
+		}
+	}
 	var out [][]int
 	used := make([]bool, n)
 	cur := make([]int, 0, n)
 	var rec func()
 	rec = func() {
-		if len(cur) == n {
+		if len(cur) == n-nExtra {
 			out = append(out, append([]int(nil), cur...))
 			return
 		}
 		for i := 0; i < n; i++ {
-			if used[i] || (w.nodes[i].parent >= 0 && !used[w.nodes[i].parent]) {
+			if used[i] || w.nodes[i].extra || (w.nodes[i].parent >= 0 && !used[w.nodes[i].parent]) {
 				continue
 			}
 			// an uncle-including block needs its uncle's header only, not its import: no extra constraint
@@ -467,6 +486,43 @@ func withBody(b *types.Block, txs []*types.Transaction, uncles []*types.Header) 
 	return nb
 }
 
+// twinAt replaces transaction i by one with the same sender, nonce, recipient, value and data but a
+// larger gas limit: same state effect, different hash, so the header's transaction root no longer
+// commits to the body.
+func twinAt(w *world, n *node, i int) *types.Block {
+	txs := n.block.Transactions()
+	if i < 0 || i >= len(txs) {
+		return nil
+	}
+	old := txs[i]
+	from, err := types.Sender(w.env.Signer, old)
+	if err != nil {
+		return nil
+	}
+	ki := -1
+	for k, a := range w.env.Addrs {
+		if a == from {
+			ki = k
+		}
+	}
+	if ki < 0 {
+		return nil
+	}
+	var nt *types.Transaction
+	if old.To() == nil {
+		nt = types.NewContractCreation(old.Nonce(), old.Value(), old.Gas()+1, old.GasPrice(), old.Data())
+	} else {
+		nt = types.NewTransaction(old.Nonce(), *old.To(), old.Value(), old.Gas()+1, old.GasPrice(), old.Data())
+	}
+	st, err := types.SignTx(nt, w.env.Signer, w.env.Keys[ki])
+	if err != nil {
+		return nil
+	}
+	s := append([]*types.Transaction{}, txs...)
+	s[i] = st
+	return withBody(n.block, s, n.block.Uncles())
+}
+
 func corruptions() []corruption {
 	flip := func(h common.Hash) common.Hash { h[7] ^= 0x40; return h }
 	return []corruption{
@@ -517,6 +573,10 @@ func corruptions() []corruption {
 			s[0], s[1] = s[1], s[0]
 			return withBody(n.block, s, n.block.Uncles())
 		}},
+		{"tx-first-replaced-by-same-effect-twin", func(w *world, n *node) *types.Block { return twinAt(w, n, 0) }},
+		{"tx-last-replaced-by-same-effect-twin", func(w *world, n *node) *types.Block {
+			return twinAt(w, n, len(n.block.Transactions())-1)
+		}},
 		{"tx-dropped-txhash-recomputed", func(w *world, n *node) *types.Block {
 			txs := n.block.Transactions()
 			if len(txs) == 0 {
@@ -564,7 +624,7 @@ func (w *world) runCorruption(cfgCache string, i int, c corruption, batch bool) 
 	if bad == nil {
 		return nil, false
 	}
-	if bad.Hash() == n.block.Hash() && c.name != "tx-dropped" && c.name != "tx-duplicated" && c.name != "tx-swapped" && c.name != "uncle-added" && c.name != "uncle-removed" {
+	if bad.Hash() == n.block.Hash() && !strings.HasPrefix(c.name, "tx-") && !strings.HasPrefix(c.name, "uncle-") {
 		return []string{"harness: corruption " + c.name + " did not change the block"}, true
 	}
 	db := w.env.NewChainDB()
@@ -674,6 +734,8 @@ func TestCheck(t *testing.T) {
 		var fails []string
 		if tk.Kind == "history" {
 			fails, _ = w.runHistory(tk.Hist)
+		} else if tk.Kind == "miner" {
+			fails, _ = w.runMiner(tk.Node)
 		} else {
 			for _, c := range corruptions() {
 				if c.name == tk.Corr {
@@ -712,6 +774,13 @@ func TestCheck(t *testing.T) {
 				}
 			}
 		}
+		for i, x := range w.nodes {
+			if x.extra {
+				for _, c := range caches {
+					tasks = append(tasks, task{kind: "history", cfg: name, hist: History{Config: name, Cache: c, Steps: single(append(w.ancestors(i), i))}})
+				}
+			}
+		}
 		for i := range w.nodes {
 			for ci := range corruptions() {
 				for _, batch := range []bool{false, true} {
@@ -720,6 +789,11 @@ func TestCheck(t *testing.T) {
 					}
 				}
 			}
+		}
+	}
+	for name := range worlds {
+		for mask := 1; mask < 1<<len(recipes()); mask++ {
+			tasks = append(tasks, task{kind: "miner", cfg: name, node: mask})
 		}
 	}
 	sort.SliceStable(tasks, func(i, j int) bool { return tasks[i].kind < tasks[j].kind })
@@ -745,6 +819,12 @@ func TestCheck(t *testing.T) {
 			cls = "h|" + tk.cfg + "|" + tk.hist.Cache + "|" + tr
 			scen, caseID = "history", tk.cfg+"/"+tk.hist.Cache
 			detail["task"] = map[string]interface{}{"kind": "history", "cfg": tk.cfg, "hist": tk.hist}
+		} else if tk.kind == "miner" {
+			var tr string
+			fails, tr = w.runMiner(tk.node)
+			cls = "m|" + tk.cfg + "|" + tr
+			scen, caseID = "miner", tk.cfg
+			detail["task"] = map[string]interface{}{"kind": "miner", "cfg": tk.cfg, "node": tk.node}
 		} else {
 			c := corruptions()[tk.corr]
 			var app bool
@@ -777,6 +857,8 @@ func TestCheck(t *testing.T) {
 		var again []string
 		if tk.kind == "history" {
 			again, _ = w.runHistory(tk.hist)
+		} else if tk.kind == "miner" {
+			again, _ = w.runMiner(tk.node)
 		} else {
 			again, _ = w.runCorruption(tk.cacheN, tk.node, corruptions()[tk.corr], tk.batch)
 		}
@@ -794,7 +876,7 @@ func TestCheck(t *testing.T) {
 }
 
 func oracleOf(msg string) string {
-	for _, k := range []string{"valid block", "stored receipts differ", "receipts sum", "receipt root recomputed", "bloom recomputed", "state root recomputed", "post-state not available", "not retrievable", "corrupted block accepted", "failed at index", "head changed", "head TD changed", "database changed", "genuine block is refused", "after the rejected batch", "reopen", "harness"} {
+	for _, k := range []string{"rejected by the import path", "transaction root recomputed", "miner produced no block", "valid block", "stored receipts differ", "receipts sum", "receipt root recomputed", "bloom recomputed", "state root recomputed", "post-state not available", "not retrievable", "corrupted block accepted", "failed at index", "head changed", "head TD changed", "database changed", "genuine block is refused", "after the rejected batch", "reopen", "harness"} {
 		if strings.Contains(msg, k) {
 			return strings.ReplaceAll(k, " ", "-")
 		}
